@@ -131,6 +131,37 @@ def comb_doubling_step(k, w=7):
     return hits
 
 
+def comb_exceptional_scalars(w=7):
+    """All k in [0, 2^256) for which the comb above meets the doubling case, derived from the structure of the
+    recoding rather than by search: at window i the running sum S = sum_{j>i} d_j 2^(wj) equals the addend
+    d_i 2^(wi) modulo n, i.e. the prefix V = S + d_i 2^(wi) is 2 d_i 2^(wi) + m n with V a multiple of 2^(wi).
+    Every k that rounds to the prefix V (an interval of length 2^(wi)) then fails.  Returns [(k_lo, k_hi, i, d)]."""
+    out = []
+    nwin = 256 // w + 1
+    half = 1 << (w - 1)
+    for i in range(nwin):
+        step = 1 << (w * i)
+        for d in range(-half, half + 1):
+            if d == 0:
+                continue
+            for m in range(0, 4):
+                V = m * N + 2 * d * step
+                if V % step or V < 0:
+                    continue
+                lo, hi = (V - step // 2, V + step // 2 - 1) if i else (V, V)
+                lo, hi = max(lo, 0), min(hi, R - 1)
+                if lo > hi:
+                    continue
+                if booth(lo, w, i) != d or sum(booth(lo, w, j) << (w * j) if booth(lo, w, j) >= 0 else
+                                               -((-booth(lo, w, j)) << (w * j)) for j in range(i, nwin)) != V:
+                    continue
+                # the running sum must be a finite point equal to the addend (not merely congruent through infinity)
+                if (V - d * step) % N == 0:
+                    continue
+                out.append((lo, hi, i, d))
+    return out
+
+
 # ---- operand generators ----------------------------------------------------------------------------
 
 def limb_patterns():
@@ -200,6 +231,7 @@ def selftest():
     assert decode_point(inf_mont(1))[:2] == ('inf', True) and decode_point(inf_mont(0))[:2] == ('inf', True)
     assert decode_point(inf_mont(77))[:2] == ('inf', True)
     assert comb_doubling_step(N - 70) == [0] and comb_doubling_step(N - 71) == [] and comb_doubling_step(12345) == []
+    assert comb_exceptional_scalars(7) == [(N - 70, N - 70, 0, -35)]
     assert len(specials()) > 50 and 0 in specials() and M256 in specials()
     return True
 
